@@ -2,7 +2,9 @@
 """save_seed.py <ID> <slug> <needs> <status>  : copies /tmp/seed-<ID> into /verif/seeded/<ID>-<slug>/ with meta.json"""
 import sys, os, shutil, json, glob
 pid, slug, needs, status = sys.argv[1:5]
-src='/tmp/seed-%s'%pid
+import os as _os
+ROUND=_os.environ.get('SEED_ROUND','')
+src='/tmp/seed%s-%s'%(ROUND,pid)
 dst='/verif/seeded/%s-%s'%(pid,slug)
 os.makedirs(dst,exist_ok=True)
 shutil.copy(src+'/patch.diff',dst+'/patch.diff')
@@ -10,7 +12,7 @@ for f in glob.glob(src+'/*_test.go')+glob.glob(src+'/*.md'):
     shutil.copy(f,dst)
 demo=[os.path.basename(f) for f in glob.glob(src+'/*_test.go')]
 meta={"property":pid,"slug":slug,"needs_to_manifest":needs,"demonstration":demo,
- "confirmed":"verify_seed.sh in scratch worktree /tmp/wt-%s: go build ok; full suite passes with the change; demonstration fails with the change and passes without it"%pid,
+ "confirmed":"verify_seed.sh in scratch worktree /tmp/wt%s-%s: go build ok; full suite passes with the change; demonstration fails with the change and passes without it"%(ROUND,pid),
  "checked_with":"./seedtest.sh seeded/%s-%s/patch.diff %s (git -C /repo apply; ./check %s --tier quick; git -C /repo checkout -- .)"%(pid,slug,pid,pid),
  "result":status}
 json.dump(meta,open(dst+'/meta.json','w'),indent=1)
